@@ -36,7 +36,9 @@ Pool ==
      R("FULL_INTROSPECTION", "", "-", "-", "types_order"),                                  \* 19 the standard introspection query
      R("{ uo { __typename } }", "", "-", "uostar", "-"),                                    \* 20 a value every member's IsTypeOf accepts
      R("{ __type(name: \"UO\") { possibleTypes { name } } }", "", "-", "-", "possible_order"), \* 21 introspection of that union
-     R("{ itl { __typename x } it { x } }", "", "-", "-", "-")                              \* 22 interface resolved through IsTypeOf
+     R("{ itl { __typename x } it { x } }", "", "-", "-", "-"),                             \* 22 interface resolved through IsTypeOf
+     R("{ srl { r(y: 2) p } }", "", "-", "-", "-"),                                         \* 23 fields resolved by their source value, literal arguments
+     R("{ sr { r(e: RED) } srl { k: r(e: RED, y: 1) r(y: 3) } }", "", "-", "-", "-")        \* 24
   >>
 
 VARIABLE hist
